@@ -61,7 +61,7 @@ def run(patch: str, checks):
     try:
         for c in checks:
             t0 = time.time()
-            r = sh(f"cd /verif && ./check {c} --tier quick", timeout=1800)
+            r = sh(f"cd {os.environ.get('VERIF_DIR', '/verif')} && ./check {c} --tier quick", timeout=1800)
             lines = [l for l in r.stdout.splitlines() if l.startswith(("VIOLATION", "  why", "HELD", "INCONCLUSIVE"))]
             res[c] = {"rc": r.returncode, "wall_s": round(time.time() - t0, 1), "first": lines[:2]}
             print(c, r.returncode, round(time.time() - t0, 1), (lines[1] if len(lines) > 1 else (lines[0] if lines else ""))[:400])
